@@ -98,17 +98,26 @@ def run(ctx):
                         ignore=shutil.ignore_patterns("__pycache__"))
         cfgp = os.path.join(tmp, "adcgen", "tensor_names.json")
         cfg = json.load(open(cfgp))
-        new = {"eri": "W", "fock": "F", "gs_amplitude": "u",
-               "orb_energy": "eps", "operator": "o", "gs_density": "r"}
-        back = {}
-        for k, v in new.items():
-            if k in cfg:
-                back[v] = cfg[k]
-                cfg[k] = v
-        json.dump(cfg, open(cfgp, "w"))
-        got, err = run_worker(tmp, 0, rng.randrange(1 << 30), 4, not quick,
-                              rename_back=back)
-        runs.append(("config=renamed-tensors", got, err))
+        cfg0 = dict(cfg)
+        # second configuration: names of different lengths
+        for tag, new in (("renamed-tensors",
+                          {"eri": "W", "fock": "F", "gs_amplitude": "u",
+                           "orb_energy": "eps", "operator": "o",
+                           "gs_density": "r"}),
+                         ("renamed-tensors-long",
+                          {"eri": "Wint", "fock": "Fk",
+                           "gs_amplitude": "ampl", "orb_energy": "eps",
+                           "operator": "op", "gs_density": "rho"})):
+            cfg = dict(cfg0)
+            back = {}
+            for k, v in new.items():
+                if k in cfg:
+                    back[v] = cfg[k]
+                    cfg[k] = v
+            json.dump(cfg, open(cfgp, "w"))
+            got, err = run_worker(tmp, 0, rng.randrange(1 << 30), 4,
+                                  not quick, rename_back=back)
+            runs.append((f"config={tag}", got, err))
     finally:
         shutil.rmtree(tmp, ignore_errors=True)
 
@@ -127,6 +136,16 @@ def run(ctx):
                 ctx.violation(f"C19:shared-indices:{what}",
                               f"two requests of {what} share indices",
                               {"run": label, "shared": names}, True)
+        for nm_, o_ in (got.get("orders") or {}).items():
+            ctx.case(key=("order", label, nm_), kind="order")
+            if not ctx.obligation(f"perturbation order of {nm_} ({label})",
+                                  o_ == ref["orders"].get(nm_),
+                                  f"{o_} vs {ref['orders'].get(nm_)}"):
+                ctx.violation(f"C19:order:{nm_}:{label.split(',')[0]}",
+                              "the perturbation order reported for a tensor "
+                              "depends on the history / configuration",
+                              {"tensor": nm_, "run": label, "order": o_,
+                               "reference": ref["orders"].get(nm_)}, True)
         for name, r in got["results"].items():
             # the request with explicit names taken from the generic pool
             # must equal the plain request (targets renamed to i, a)
@@ -173,6 +192,20 @@ def run(ctx):
                 pr.diff is not None)
         if label.startswith("config=") or name.endswith("pool_names"):
             continue      # names differ by construction
+        if text != text0 and pr.ok and same_terms_up_to_names(pr):
+            # the value is proved equal and the terms agree one by one up to
+            # the choice of contracted index names inside symmetric index
+            # groups: listed finding (substitute_contracted is not a
+            # canonical form), see findings/C19_text_not_canonical.md
+            ctx.obligation(f"text of {name} independent of {label}", False,
+                           "differs only by contracted index names")
+            ctx.violation(
+                "C19:text:contracted-index-names-not-canonical",
+                "the printed result differs only by which contracted index "
+                "of a symmetric index group got which name",
+                {"request": name, "run": label, "text": text[:1500],
+                 "reference_text": text0[:1500]}, True)
+            continue
         if not ctx.obligation(f"text of {name} independent of {label}",
                               text == text0):
             ctx.violation(
@@ -182,6 +215,26 @@ def run(ctx):
                 "different history / hash seed",
                 {"request": name, "run": label, "text": text[:1500],
                  "reference_text": text0[:1500]}, True)
+
+
+def same_terms_up_to_names(pr):
+    """both results consist of the same terms (same multiset of canonical
+    forms with the same coefficients) - they differ at most by the names of
+    contracted indices and the order"""
+    import certfind
+    from collections import Counter
+
+    def keys(terms):
+        out = Counter()
+        for t in terms:
+            m, full, _ = certfind.canonical_relabel(t, pr.tg)
+            if not full:
+                return None
+            k, sg = certfind.canon_key_sign(adcio.rename_term(t, m))
+            out[(repr(k), t[0] * sg)] += 1
+        return out
+    a, b = keys(pr.p1), keys(pr.p2)
+    return a is not None and a == b
 
 
 def collision(terms, targets):
